@@ -7,7 +7,11 @@
  * point  := u8 infinity, blob x_be, blob y_be
  * ops    : 0 info, 1 add, 2 sub, 4 unknown_pt_mult, 5 mult_bp, 6 twin_mult, 7 twin_mult_bp,
  *          8 check_affine, 9 projective import/export round trip
- * alias  : 1 => second operand is the SAME OBJECT as the first (add/sub/twin_mult)
+ * alias  : bit 0 => second point operand is the SAME OBJECT as the first (add/sub/twin_mult);
+ *          bits 1-2 => where twin multiplication puts its result: 0 a separate object, 1 the first
+ *          point operand, 2 the second point operand (twin_mult_bp: 2 = in place, Q = d*G + e*Q).
+ *          Every twin implementation reads its operands into locals/tables before it writes `res`,
+ *          so an in-place result is a use the interface supports.
  * obs    := i32 rc_curve, i32 rc_prep, i32 rc, u8 infinity, blob x_le, blob y_le
  *
  * The curve object lives in malloc'ed memory that is filled with the junk byte before the
@@ -255,12 +259,20 @@ int main(void) {
 			g_case_no++;
 			dirty_stack((uint8_t)(junk ^ 0x5a), 0);
 			switch (op) {
-			case 1: rc = ec_point_add(A, alias ? A : B, g_curve); res = A; break;
-			case 2: rc = ec_point_sub(A, alias ? A : B, g_curve); res = A; break;
+			case 1: rc = ec_point_add(A, (alias & 1) ? A : B, g_curve); res = A; break;
+			case 2: rc = ec_point_sub(A, (alias & 1) ? A : B, g_curve); res = A; break;
 			case 4: rc = ec_point_unknown_pt_mult(A, k1, g_curve); res = A; break;
 			case 5: rc = ec_point_mult_bp(k1, g_curve, R); res = R; break;
-			case 6: rc = ec_point_twin_mult(A, k1, alias ? A : B, k2, g_curve, R); res = R; break;
-			case 7: rc = ec_point_twin_mult_bp(k1, B, k2, g_curve, R); res = R; break;
+			case 6: {
+				ec_point_t *B2 = (alias & 1) ? A : B;
+				res = (1 == (alias >> 1)) ? A : ((2 == (alias >> 1)) ? B2 : R);
+				rc = ec_point_twin_mult(A, k1, B2, k2, g_curve, res);
+				break;
+			}
+			case 7:
+				res = (2 == (alias >> 1)) ? B : R;
+				rc = ec_point_twin_mult_bp(k1, B, k2, g_curve, res);
+				break;
 			case 8: rc = ec_point_check_affine(A, g_curve); res = NULL; break;
 			case 9:
 				PJ = junk_alloc(sizeof(ec_point_proj_t), junk);
